@@ -11,7 +11,8 @@ Definition SELF : addr := 5.
 Record sobs := mkSobs {
   so_start : N; so_end : N; so_pal : N; so_num : N;
   so_cfg_active : bool;            (* Config.is_active *)
-  so_started : bool; so_ended : bool; so_active : bool
+  so_started : bool; so_ended : bool; so_active : bool;
+  so_can : list (addr * result bool)            (* CanExecute { sender } *)
 }.
 
 Inductive sstep :=
@@ -27,7 +28,8 @@ Definition obs_ok (now : N) (w : wl) (o : sobs) : bool :=
   Bool.eqb (snd (q_config now w)) (so_cfg_active o) &&
   Bool.eqb (q_started now w) (so_started o) &&
   Bool.eqb (q_ended now w) (so_ended o) &&
-  Bool.eqb (q_active now w) (so_active o).
+  Bool.eqb (q_active now w) (so_active o) &&
+  forallb (fun p => result_eqb Bool.eqb (q_can_execute valid_id (fst p) w) (snd p)) (so_can o).
 
 Fixpoint steps_ok (w : wl) (l : list sstep) : bool :=
   match l with
